@@ -1,1 +1,177 @@
-/-! Property theorems for C13 — placeholder until the property's model is built. -/
+import FcpptModel.Spec.C13
+import FcpptProofs.C13.Sets
+set_option linter.unusedSimpArgs false
+/-!
+# C13 — property theorems: boxes are half-open point sets
+
+For every dimension `n`, all boxes with integer corners (no bound on the coordinates; inverted and
+degenerate boxes included) and all points of ℤ^n.  `Mem b p` is `pos_i ≤ p_i < max_i` for all `i`.
+Functions that perform arithmetic in the coordinate type `t` are stated in three regimes: results
+representable (then the exact mathematical value), signed and not representable (fault =
+undefined behaviour), unsigned (value modulo 2^bits).
+-/
+namespace Fcppt.C13
+variable {n : Nat}
+
+/-! ## membership, intersection, intersects, contains, bounding box -/
+
+/-- `contains_point` is membership in the half-open point set. -/
+theorem containsPoint_iff_mem (b : Box n) (p : Vec n) : containsPoint b p = true ↔ Mem b p :=
+  containsPoint_iff b p
+
+/-- `intersection` never faults (for any coordinate type). -/
+theorem intersection_total (t : Ty) (a b : Box n) : ∃ r, intersection t a b = .ok r := by
+  unfold intersection
+  split
+  · exact ⟨_, rfl⟩
+  · exact ⟨_, null_eq t n⟩
+
+/-- The intersection contains exactly the common points — for *all* boxes, empty or inverted ones included. -/
+theorem mem_intersection (t : Ty) (a b r : Box n) (h : intersection t a b = .ok r) (p : Vec n) :
+    Mem r p ↔ Mem a p ∧ Mem b p := by
+  unfold intersection at h
+  split at h
+  · cases h
+    constructor
+    · intro hm
+      refine ⟨fun i => ?_, fun i => ?_⟩ <;>
+      · have := hm i
+        simp only [Fin.getElem_fin, initMax_min, initMax_max] at this ⊢
+        omega
+    · rintro ⟨ha, hb⟩ i
+      have := ha i
+      have := hb i
+      simp only [Fin.getElem_fin, initMax_min, initMax_max] at *
+      omega
+  · rename_i hni
+    rw [null_eq] at h
+    cases h
+    have hf : intersects a b = false := by simpa using hni
+    obtain ⟨i, hi⟩ := (intersects_false_iff a b).1 hf
+    have hn : 0 < n := Nat.lt_of_le_of_lt (Nat.zero_le _) i.isLt
+    constructor
+    · intro hm
+      exact absurd hm (not_mem_null hn p)
+    · rintro ⟨ha, hb⟩
+      exfalso
+      have := ha i
+      have := hb i
+      simp only [Fin.getElem_fin] at *
+      omega
+
+/-- When `intersects` is false the result is the null box (all coordinates 0) … -/
+theorem intersection_null_of_not_intersects (t : Ty) (a b : Box n) (h : intersects a b = false) :
+    intersection t a b = .ok ⟨vzero n, vzero n⟩ := by
+  simp [intersection, h, null_eq]
+
+/-- … in particular whenever the two boxes have no common point and are non-empty
+    (for non-empty boxes `intersects` is exactly "a common point exists", next theorem). -/
+theorem intersects_iff_common_point (a b : Box n) (ha : NonEmpty a) (hb : NonEmpty b) :
+    intersects a b = true ↔ ∃ p, Mem a p ∧ Mem b p := by
+  have ha' := (nonEmpty_iff a).1 ha
+  have hb' := (nonEmpty_iff b).1 hb
+  rw [intersects_iff]
+  constructor
+  · intro h
+    refine ⟨Vector.ofFn fun i => Max.max a.min[i] b.min[i], fun i => ?_, fun i => ?_⟩ <;>
+    · have := h i
+      have := ha' i
+      have := hb' i
+      simp only [Fin.getElem_fin, Vector.getElem_ofFn] at *
+      omega
+  · rintro ⟨p, hpa, hpb⟩ i
+    have := hpa i
+    have := hpb i
+    simp only [Fin.getElem_fin] at *
+    omega
+
+/-- A common point forces `intersects` (no non-emptiness needed). -/
+theorem intersects_of_common_point (a b : Box n) (p : Vec n) (hpa : Mem a p) (hpb : Mem b p) : intersects a b = true := by
+  rw [intersects_iff]
+  intro i
+  have := hpa i
+  have := hpb i
+  simp only [Fin.getElem_fin] at *
+  omega
+
+theorem intersection_null_of_disjoint (t : Ty) (a b : Box n) (ha : NonEmpty a) (hb : NonEmpty b)
+    (hd : ¬ ∃ p, Mem a p ∧ Mem b p) : intersection t a b = .ok ⟨vzero n, vzero n⟩ := by
+  apply intersection_null_of_not_intersects
+  rw [← Bool.not_eq_true, intersects_iff_common_point a b ha hb]
+  exact hd
+
+/-- `contains(outer, inner)`, for a non-empty inner box, is the subset relation of the point sets. -/
+theorem contains_iff_subset (outer inner : Box n) (hi : NonEmpty inner) :
+    contains outer inner = true ↔ Subset inner outer := by
+  rw [contains_iff, subset_iff outer inner hi]
+
+/-- `contains` implies subset for every inner box (also empty ones). -/
+theorem subset_of_contains (outer inner : Box n) (h : contains outer inner = true) : Subset inner outer := by
+  rw [contains_iff] at h
+  intro p hp i
+  have := h i
+  have := hp i
+  simp only [Fin.getElem_fin] at *
+  omega
+
+/-- The bounding box contains both boxes (as corner-wise `contains`, hence as point sets). -/
+theorem extendBox_contains (a b : Box n) :
+    contains (extendBox a b) a = true ∧ contains (extendBox a b) b = true := by
+  simp only [contains_iff, extendBox]
+  refine ⟨fun i => ?_, fun i => ?_⟩ <;>
+  · simp only [Fin.getElem_fin, initMax_min, initMax_max]
+    omega
+
+theorem extendBox_upper (a b : Box n) : Subset a (extendBox a b) ∧ Subset b (extendBox a b) :=
+  ⟨subset_of_contains _ _ (extendBox_contains a b).1, subset_of_contains _ _ (extendBox_contains a b).2⟩
+
+/-- … and it is the least such box: every box whose point set contains both non-empty boxes
+    contains the bounding box. -/
+theorem extendBox_least (a b c : Box n) (ha : NonEmpty a) (hb : NonEmpty b)
+    (hac : Subset a c) (hbc : Subset b c) : contains c (extendBox a b) = true ∧ Subset (extendBox a b) c := by
+  have h1 := (subset_iff c a ha).1 hac
+  have h2 := (subset_iff c b hb).1 hbc
+  have hc : contains c (extendBox a b) = true := by
+    rw [contains_iff]
+    intro i
+    have := h1 i
+    have := h2 i
+    simp only [Fin.getElem_fin, extendBox, initMax_min, initMax_max] at *
+    omega
+  exact ⟨hc, subset_of_contains _ _ hc⟩
+
+/-- the bounding box of two non-empty boxes is non-empty -/
+theorem extendBox_nonEmpty (a b : Box n) (ha : NonEmpty a) : NonEmpty (extendBox a b) := by
+  obtain ⟨p, hp⟩ := ha
+  exact ⟨p, (extendBox_upper a b).1 p hp⟩
+
+/-- `extend_bounding_box(box, point)`: the least box that contains `box` corner-wise and has the
+    point in its *closed* hull (the point itself is not a member when it lies on or beyond `max`). -/
+theorem extendPoint_spec (b : Box n) (p : Vec n) :
+    contains (extendPoint b p) b = true ∧ MemClosed (extendPoint b p) p ∧
+    ∀ c : Box n, contains c b = true → MemClosed c p → contains c (extendPoint b p) = true := by
+  refine ⟨?_, ?_, ?_⟩
+  · rw [contains_iff]
+    intro i
+    simp only [Fin.getElem_fin, extendPoint, initMax_min, initMax_max]
+    omega
+  · intro i
+    simp only [Fin.getElem_fin, extendPoint, initMax_min, initMax_max]
+    omega
+  · intro c hc hp
+    rw [contains_iff] at *
+    intro i
+    have := hc i
+    have := hp i
+    simp only [Fin.getElem_fin, extendPoint, initMax_min, initMax_max] at *
+    omega
+
+/-- a point inside the box leaves it unchanged -/
+theorem extendPoint_of_mem (b : Box n) (p : Vec n) (h : Mem b p) : extendPoint b p = b := by
+  apply box_ext <;>
+  · intro i
+    have := h i
+    simp only [Fin.getElem_fin, extendPoint, initMax_min, initMax_max] at *
+    omega
+
+end Fcppt.C13
